@@ -610,7 +610,8 @@ func checkC11(c c11Case, ctx *vCtx) *vFailure {
 		lg := vWriteFile("c11-log.yaml", "2021/01/01:\n  zz: 1\n")
 		x := "x"
 		cmds := [][]string{{"csv", "database-resolved"}, {"reg", "--no-color"}, {"bal"}, {"report", "totals"}, {"report", "element-total", x}, {"report", "unresolved"}, {"summary", "2021/01/01"},
-			{"reg", "-f", "."}, {"reg", "-s", x}, {"reg", "-s", x, "-g"}, {"reg", "--use-old-reg-reporter"}, {"reg", "--totals-only"}, {"bal", "-s", x}, {"bal", "-c"}, {"bal", "--collapse-last"}, {"reg", "-b", "2021/01/01"}}
+			{"reg", "-f", "."}, {"reg", "-s", x}, {"reg", "-s", x, "-g"}, {"reg", "--use-old-reg-reporter"}, {"reg", "--totals-only"}, {"bal", "-s", x}, {"bal", "-c"}, {"bal", "--collapse-last"}, {"reg", "-b", "2021/01/01"},
+			{"reg", "-s", x, "-f", "."}, {"reg", "-f", "zz", "-s", x, "-g"}, {"bal", "-b", "2021/01/01", "-s", x}, {"reg", "--no-totals"}, {"reg", "--internal-template-name", "left-aligned"}, {"reg", "--shorten"}}
 		// a configuration file with another depth: the flag / environment value must win, also when it equals the default
 		other := c.N + 3
 		if c.N > 6 {
@@ -618,9 +619,15 @@ func checkC11(c c11Case, ctx *vCtx) *vFailure {
 		}
 		cfgp := vWriteFile("c11.conf", fmt.Sprintf("[Resolver]\nMaxDepth=%d\n", other))
 		cfgOnly := vWriteFile("c11-only.conf", fmt.Sprintf("[Resolver]\nMaxDepth=%d\n", c.N))
-		for i, cmd := range cmds {
+		// which source carries the limit for which command, and the order of the commands, vary from case to case
+		// (an invocation must not depend on what an earlier invocation of the process was given)
+		// an unrelated invocation under another limit first: it must leave nothing behind in the process
+		_ = vRunApp(vInvocation{Args: []string{"-d", p, "-l", lg, "csv", "database"}, Env: map[string]string{"HR_MAXDEPTH": fmt.Sprint(other)}})
+		order := vPermFromSeed(len(cmds), c.PermSeed^0x9e3779b97f4a7c15)
+		for _, i := range order {
+			cmd := cmds[i]
 			inv := vInvocation{Args: append([]string{"--maxdepth", fmt.Sprint(c.N), "-d", p, "-l", lg}, cmd...)}
-			switch i % 4 {
+			switch (i + int(c.PermSeed%4)) % 4 {
 			case 1:
 				inv = vInvocation{Args: append([]string{"-d", p, "-l", lg}, cmd...), Env: map[string]string{"HR_MAXDEPTH": fmt.Sprint(c.N)}}
 			case 2:
